@@ -1,4 +1,4 @@
-"""Parameter forwarding (inferred from the repository itself: 603 of 615 sites): a function that takes a parameter `p` and
+"""Parameter forwarding (inferred from the repository itself: 680 of 691 sites): a function that takes a parameter `p` and
 calls a repository function that also takes `p` (resolved precisely, or by name when every candidate agrees) hands its own `p` on; a call that leaves `p` to the
 callee's default silently replaces the caller's choice (warnings filter, task selection, schema, extra definitions ...).
 The sites where today's tree does not forward were read one by one and are frozen here with the reason."""
@@ -17,7 +17,6 @@ EXCEPTIONS = {
     ("_load_schema_version_sub", "load_schema", "schema_namespace"): "the namespace is set on the merged result by _load_schema_version",
     ("Schema2DF._output_header", "Schema2DF._create_and_add_object_row", "attributes"): "header attributes are written by a separate call",
     ("FactorHedTagsOp.do_op", "Sidecar.__init__", "name"): "the operation's display name is not the sidecar's",
-    ("HedValidator.validate_units", "CharValidator.check_for_invalid_extension_chars", "error_code"): "upstream as is: extension characters keep their own code",
     ("UnitValueValidator.__init__", "CharRexValidator.__init__", "modern_allowed_char_rules"): "kept on the unit validator itself (see R1.7 DEAD_OK)",
 }
 
